@@ -46,13 +46,44 @@ CHECKS = {
                      "replayed on the real tree; seeded sequences on the real tree (fan-out 2, 4, ~400, with reopen) are judged step by "
                      "step by BTreeTrace.tla.",
                 note="known findings KF-09/KF-10 (equal keys)"),
+    "C11": dict(ref="5 C11", tech="TLA+ reference evaluator (CypherSem.tla) evaluated by TLC on recorded executions (trace validation, CypherTrace)",
+                text="CypherSem.tla is an independent reference evaluator of the read fragment (pattern matching with relationship "
+                     "uniqueness over the relationship bag, OPTIONAL MATCH, WHERE in three-valued logic, WITH, UNWIND, DISTINCT, "
+                     "aggregation, ORDER BY/SKIP/LIMIT); seeded random graphs and well-scoped query ASTs are rendered to Cypher, executed "
+                     "on the real engine, and TLC evaluates the reference on the dumped graph and judges the returned rows as a bag or "
+                     "as an order-respecting slice.",
+                note="known findings KF-11..13 (uniqueness across comma patterns, parallel relationships, bound node inside a chain)"),
+    "C19": dict(ref="5 C19", tech="TLA+ trace validation (CypherTrace.TPart): bag identity on recorded rows",
+                text="For every generated (base query, predicate) the four queries (no filter, WHERE p, WHERE NOT p, WHERE p IS NULL) "
+                     "run on the real engine; TLC checks rows() = rows(p) + rows(NOT p) + rows(p IS NULL) as bags.",
+                note="two graphs x with/without property indexes; predicates that raise in every variant are outside the claim"),
+    "C20": dict(ref="5 C20", tech="TLC checks OrdCmp is a total preorder (CypherGen) + TLA+ trace validation (CypherTrace.TOrder)",
+                text="CypherVal.OrdCmp is the orderability preorder (checked reflexive/antisymmetric/transitive/total by TLC over the "
+                     "universe, which TLC also exports as the generator's input); recorded ORDER BY results over 1-2 keys with ASC/DESC, "
+                     "SKIP and LIMIT must be permutation slices sorted by OrdCmp at the positions SKIP/LIMIT select.",
+                note="values: ints/floats at 2^53 and 2^63 boundaries, NaN, infinities, -0.0, nulls, strings incl. date-like, lists, a map"),
+    "C21": dict(ref="5 C21", tech="TLA+ trace validation (CypherTrace.TAgg/TArith) with exact arbitrary-precision folds in CypherVal",
+                text="Recorded aggregate rows are judged per group against exact folds computed by TLC (arbitrary-precision integers and "
+                     "dyadic rationals): count(*), count, sum, min, max, collect, avg and the DISTINCT forms, one row per key, and the "
+                     "overflow rule for integer sums.",
+                note="float sums/avg accepted within the rounding error of any summation order (2^-48 of the sum of magnitudes)"),
+    "C22": dict(ref="5 C22", tech="TLA+ trace validation (CypherTrace.TErr) with the consumption rule Consumes(op, position, limit)",
+                text="One row of the input raises a runtime error; the specification's rule says whether the operator must consume the "
+                     "row (every blocking operator, no LIMIT, or failing row before LIMIT); the recorded outcome must then be an error.",
+                note="3 failing expressions x 12 operator forms x positions"),
+    "C23": dict(ref="5 C23", tech="TLC checks the laws on CypherVal (CypherGen) + TLA+ trace validation (CypherTrace.TTruth3/TCmp/TArith)",
+                text="Truth tables, full comparison tables of the value universe (=, <>, <, <=, >, >=) and integer operators at the "
+                     "64-bit boundaries are recorded from the real engine; TLC checks the laws on the observed tables (Kleene tables, "
+                     "De Morgan, null propagation, equality an equivalence, order operators mutually consistent and congruent with "
+                     "equality, exact int/float comparison, one overflow rule for + - * unary- abs sum).",
+                note="laws are checked on observed tables; the oracle's own laws are checked by TLC first"),
     "C28": dict(ref="5 C28", tech="TLA+ trace validation (StorageTrace)",
                 text=TRACE_TXT + "close, vacuum, reopen, dump, write, reopen.",
                 note="vacuum of a cleanly closed database only"),
 }
 
 # properties whose check has been run green on the unchanged tree
-ENABLED = ["C01", "C02", "C04", "C05", "C06", "C07", "C08", "C17", "C26", "C28"]
+ENABLED = ["C01", "C02", "C04", "C05", "C06", "C07", "C08", "C11", "C17", "C19", "C20", "C21", "C22", "C23", "C26", "C28"]
 
 NOT_APPLICABLE = {
     "C16": "quantifies over arbitrary byte strings and resource exhaustion; no state machine to specify, a fuzzer's job (DESIGN.md 6)",
@@ -66,6 +97,7 @@ def main():
     import sys
     sys.path.insert(0, os.path.join(VERIF, "lib"))
     import checks
+    import cychecks  # noqa: F401
     checks_out = []
     na = []
     for p in props:
